@@ -27,6 +27,10 @@ pub enum Pred {
     KeepAll,
     /// keep everything except these two keys
     DropKeys(u32, u32),
+    /// keep everything except key k - and when shown key k the predicate itself first
+    /// re-inserts k (with this value id) into the same collection: the entry is replaced between
+    /// the inspection and the removal, deterministically
+    ReinsertReject(u32, u32),
 }
 
 impl Pred {
@@ -37,6 +41,7 @@ impl Pred {
             Pred::DropAll => false,
             Pred::KeepAll => true,
             Pred::DropKeys(a, b) => k != a && k != b,
+            Pred::ReinsertReject(a, _) => k != a,
         }
     }
 }
@@ -137,6 +142,7 @@ fn pred_j(p: Pred) -> Value {
         Pred::DropAll => json!(["dropall"]),
         Pred::KeepAll => json!(["keepall"]),
         Pred::DropKeys(a, b) => json!(["dropkeys", a, b]),
+        Pred::ReinsertReject(a, b) => json!(["reinsert_reject", a, b]),
     }
 }
 fn pred_p(v: &Value) -> Option<Pred> {
@@ -147,6 +153,7 @@ fn pred_p(v: &Value) -> Option<Pred> {
         "dropall" => Pred::DropAll,
         "keepall" => Pred::KeepAll,
         "dropkeys" => Pred::DropKeys(a.get(1)?.as_u64()? as u32, a.get(2)?.as_u64()? as u32),
+        "reinsert_reject" => Pred::ReinsertReject(a.get(1)?.as_u64()? as u32, a.get(2)?.as_u64()? as u32),
         _ => return None,
     })
 }
